@@ -58,8 +58,8 @@ impl Config {
 @tags C19
 @ret c
 @rename filter_map vp_filter_map
-@closure 1 |pattern: String| -> (r: Option<Pattern>) ensures match r { Some(p) => glob_valid(pattern@) && p@ == pattern@, None => !glob_valid(pattern@) }
-@closure 2 |code: &String| -> (b: bool) ensures b == valid_code(code@)
+@closure filter_map:1 |pattern: String| -> (r: Option<Pattern>) ensures match r { Some(p) => glob_valid(pattern@) && p@ == pattern@, None => !glob_valid(pattern@) }
+@closure filter:1 |code: &String| -> (b: bool) ensures b == valid_code(code@)
 @before valid_diagnostics 2
     proof {
         let l = lit_views(valid_diagnostics@);
@@ -92,7 +92,7 @@ impl Config {
 /*@ extract src/config/mod.rs is_diagnostic_disabled
 @tags C19
 @ret b
-@closure 1 |d: &String| -> (b: bool) ensures b == (d@ == code@)
+@closure any:1 |d: &String| -> (b: bool) ensures b == (d@ == code@)
 @derefcmp d code
 @sig
     ensures b == op_is_disabled(cfg_view(self), code@),
